@@ -193,6 +193,12 @@ class NixList(TypedExpression):
             return expr.rebuild(indent=indented, inline=not multiline)
 
         items = [render_item(item) for item in self.value]
+        if not multiline and any("\n" in item for item in items):
+            # An item that renders on several lines (a one-line `let` or
+            # `assert` does) makes the next parse read a multi-line list.
+            multiline = True
+            indented = indent + 2
+            items = [render_item(item) for item in self.value]
 
         if multiline:
             # Add proper indentation for multiline lists
